@@ -1,4 +1,4 @@
-use fr_core::{bgdeliver, exec, flushrace, narrate, prog, props, teardown};
+use fr_core::{bgdeliver, exec, flushrace, narrate, prerace, prog, props, teardown};
 
 use std::collections::{BTreeMap, HashSet};
 use std::io::Write;
@@ -100,6 +100,9 @@ fn worker(args: &[String]) -> i32 {
     }
     if variant == "flushrace" {
         return flushrace_worker(prop, seed, wid, cases, out, &known);
+    }
+    if variant == "prerace" {
+        return prerace_worker(seed, wid, cases, out, &known);
     }
     if variant == "bgdeliver" || variant == "bgdeliver25" {
         return bgdeliver_worker(prop, variant, seed, wid, cases, out, &known);
@@ -463,6 +466,65 @@ fn bgdeliver_worker(prop: &str, variant: &str, seed: u64, wid: u64, cases: u32, 
     0
 }
 
+fn prerace_sig(m: &str) -> String {
+    format!("before-reporter-race:{}", m.split(':').next().unwrap_or(""))
+}
+
+fn prerace_worker(seed: u64, wid: u64, cases: u32, out: &str, known: &[String]) -> i32 {
+    quiet_panics();
+    let strategy = prerace::strategy();
+    let cfg = Config { cases, failure_persistence: None, max_shrink_iters: 30, ..Config::default() };
+    let mut runner = TestRunner::new_with_rng(cfg, TestRng::from_seed(RngAlgorithm::ChaCha, &seed_bytes(seed, wid, "prerace")));
+    let start = std::time::Instant::now();
+    let st = std::cell::RefCell::new((0u64, HashSet::<u64>::new(), Vec::<serde_json::Value>::new(), false, 0u64));
+    let res = runner.run(&strategy, |c| {
+        let fails: Vec<String> = prerace::run(&c).into_iter().filter(|m| !known.contains(&prerace_sig(m))).collect();
+        let mut s = st.borrow_mut();
+        if !s.3 {
+            s.0 += 1;
+            s.4 += c.iters as u64 * c.root_threads as u64;
+            if c.root_threads as u32 + c.flushers as u32 >= 2 {
+                use std::hash::{Hash, Hasher};
+                let mut h = std::collections::hash_map::DefaultHasher::new();
+                format!("{:?}", c).hash(&mut h);
+                if s.1.insert(h.finish()) && s.2.len() < 3 {
+                    s.2.push(serde_json::to_value(&c).unwrap());
+                }
+            }
+        }
+        if fails.is_empty() {
+            Ok(())
+        } else {
+            s.3 = true;
+            Err(TestCaseError::fail(prerace_sig(&fails[0])))
+        }
+    });
+    let s = st.into_inner();
+    let mut failure = serde_json::Value::Null;
+    if let Err(TestError::Fail(reason, c)) = &res {
+        let fails = prerace::run(c);
+        failure = json!({"signature": reason.to_string(), "program": c, "violations": fails.iter().map(|f| json!({"sig": prerace_sig(f), "msg": f})).collect::<Vec<_>>()});
+    } else {
+        // the phase ends: the process installs a reporter
+        let fails: Vec<String> = prerace::install_and_check().into_iter().filter(|m| !known.contains(&prerace_sig(m))).collect();
+        if !fails.is_empty() {
+            failure = json!({"signature": prerace_sig(&fails[0]), "program": {"root_threads": 4, "flushers": 2, "iters": 60000, "derive": 1}, "violations": fails.iter().map(|f| json!({"sig": prerace_sig(f), "msg": f})).collect::<Vec<_>>()});
+        }
+    }
+    let mut nt: Vec<u64> = s.1.iter().cloned().collect();
+    nt.sort();
+    let res = json!({
+        "property": "C16", "variant": "prerace", "cancelable": false, "seed": seed, "worker": wid,
+        "evaluations": s.0, "nontrivial_hashes": nt.iter().map(|h| format!("{:016x}", h)).collect::<Vec<_>>(),
+        "labels": {"before_reporter_race_case": s.0, "before_reporter_roots_created": s.4}, "excluded": {}, "known_hits": {}, "samples": s.2,
+        "records_delivered": 0, "ops_executed": 0, "ops_skipped": 0, "failure": failure,
+        "rule": "the phase of a process before any reporter is installed, with real parallelism: 1-4 OS threads released at the same instant create 5000-60000 roots each (with property closures; a child or a local scope derived from each) while 0-2 threads call flush() in a loop; oracle (exact, schedule-independent): no span has a context or an elapsed time, no closure is invoked, and when the worker finally installs a reporter nothing of that phase is delivered; non-trivial = at least two threads; distinct = hash of the case",
+        "wall_s": start.elapsed().as_secs_f64(),
+    });
+    std::fs::File::create(out).unwrap().write_all(serde_json::to_string(&res).unwrap().as_bytes()).unwrap();
+    0
+}
+
 fn teardown_worker(args: &[String], seed: u64, wid: u64, cases: u32, out: &str, known: &[String]) -> i32 {
     let _ = args;
     quiet_panics();
@@ -583,6 +645,23 @@ fn replay(args: &[String]) -> i32 {
         println!("{}", serde_json::to_string_pretty(&json!({"violations": o.violations.iter().map(|(sig, m)| json!({"sig": sig, "msg": m})).collect::<Vec<_>>(),
             "narrative": [format!("{} records expected, latencies (us): {:?}", o.expected, o.latencies_ns.iter().map(|n| n / 1000).collect::<Vec<_>>())]})).unwrap());
         return if o.violations.is_empty() { 0 } else { 1 };
+    }
+    if v["variant"].as_str() == Some("prerace") {
+        quiet_panics();
+        let c: prerace::PreCase = serde_json::from_value(v["program"].clone()).expect("prerace case");
+        let mut fails = vec![];
+        // a race: the case is repeated (a fresh process has the whole phase before it)
+        for _ in 0..20 {
+            fails = prerace::run(&c);
+            if !fails.is_empty() {
+                break;
+            }
+        }
+        if fails.is_empty() {
+            fails = prerace::install_and_check();
+        }
+        println!("{}", serde_json::to_string_pretty(&json!({"violations": fails.iter().map(|f| json!({"sig": prerace_sig(f), "msg": f})).collect::<Vec<_>>(), "narrative": []})).unwrap());
+        return if fails.is_empty() { 0 } else { 1 };
     }
     if v["variant"].as_str() == Some("teardown") {
         quiet_panics();
